@@ -150,13 +150,9 @@ WATCHDOG_S = 2.0     # one population normally takes a few milliseconds
 
 def observe(case):
     """run the real functions under a watchdog: a call that does not return within WATCHDOG_S seconds is reported"""
-    old = signal.signal(signal.SIGALRM, _alarm)
-    signal.setitimer(signal.ITIMER_REAL, WATCHDOG_S)
-    try:
+    # CPU-time watchdog (wall-clock backstop 30x): a 2 s WALL limit raised a false alarm on a loaded machine
+    with C.cpu_time_limit(WATCHDOG_S, exc=Hang):
         return observe_unguarded(case)
-    finally:
-        signal.setitimer(signal.ITIMER_REAL, 0)
-        signal.signal(signal.SIGALRM, old)
 
 
 def observe_unguarded(case):
@@ -360,7 +356,7 @@ def check_case(case):
     except Hang:
         ob = Obs()
         ob.attrs, ob.cuts, ob.fcuts, ob.inexact, ob.failed = [], [], [], 1, True
-        return ob, [("call-does-not-return", "nondominated_sort/truncate/split/prune/truncate_fitness did not return within 2 s on this population (some k in 0..n+2)")]
+        return ob, [("call-does-not-return", "nondominated_sort/truncate/split/prune/truncate_fitness did not return within 2 s of CPU time on this population (some k in 0..n+2)")]
     except Exception as e:     # an exception on a well-formed population
         ob = Obs()
         ob.attrs, ob.cuts, ob.fcuts, ob.inexact, ob.failed = [], [], [], 1, True
